@@ -11,6 +11,7 @@ import Splipy.Lemmas.C05Lower
 import Splipy.Lemmas.C05PerGeom
 import Splipy.Lemmas.C05PerDir
 import Splipy.Lemmas.C05Examples
+import Splipy.Lemmas.C05PerUniform
 
 /-!
 # Property C05 — order elevation preserves geometry and continuity; lowering undoes it
@@ -34,7 +35,9 @@ A periodic direction of a surface / volume is covered the same way (`C05_periodi
 a standard periodic direction is `DirOKw` relative to `H_sw`; `C05_geometry_periodic_surface_partial`;
 `Obj.evaluate` forms for surfaces and volumes in `Properties/Bridge.lean`).  Order-1 (constant)
 objects raised by `a ≥ 1` are the case `q = 0` of the clamped theorems (`C05_geometry_order1`).
-Still partial: `H_sw` for the folded periodic Greville collocation matrix; periodic vectors whose
+`H_sw` and admissibility are discharged for one family — uniform periodic quadratics raised to cubics,
+any number of knots, `tol ≤ h/3` (`C05_geometry_periodic_uniform_cubic`, diagonal dominance).
+Still partial: `H_sw` for the folded periodic Greville collocation matrix in general; periodic vectors whose
 ghost regions span more than one period; `lower_order` on periodic bases (the pinned code raises
 `NameError`); an order-1 basis in the RESULT (amount 0 in an order-1 direction: no Greville points;
 `lower_order` refuses order 1 — listed findings).
@@ -244,7 +247,8 @@ theorem C05_elevation_periodic {tol : K} {p k : ℕ} {w0 : K} {wr : List K} {μ0
 (`C05_elevation_periodic`); the remaining hypotheses are
 * `H_sw` — the periodic Greville collocation matrix of `b'` has the model's certified inverse (the
   code does not raise `LinAlgError`); Schoenberg–Whitney for the FOLDED periodic collocation matrix
-  is not proved (not even for uniform knots);
+  is not proved in general — it is proved for the family of uniform periodic quadratics raised to
+  cubics, `C05_geometry_periodic_uniform_cubic`, which has no hypothesis left;
 * the Greville points of `b'` are admissible for `b` and `b'` (`Basis.Admissible`: each is exactly a
   knot or at least `tol` from every knot, also after wrapping — so that the tolerance snapping of
   `evaluate` does not move them).
@@ -272,6 +276,36 @@ theorem C05_geometry_periodic_partial {tol : K} {p k : ℕ} {w0 : K} {wr : List 
     (∃ o', o.raiseOrder tol [(a : Int)] none = .ok (.self, o') ∧ ElevatedOn S tol b b' nc o o') ∧
     (∃ o', o.curveRaiseOrder tol (a : Int) = .ok (.self, o') ∧ ElevatedOn S tol b b' nc o o') :=
   raise_periodic_curve h htol a ha o nc hb hs pts hg hadm Ni H_sw
+
+/-- **C05, geometry for periodic curves — a hypothesis-free family: uniform periodic quadratics raised to
+cubics.**  `b` is the periodic quadratic basis (order 3, continuity `k = 1`) on `m + 1 ≥ 3` uniform simple
+knots per period, spacing `h`: knot vector `s0 + h·(−2, −1, 0, 1, …, m+3)`, i.e.
+`BSplineBasis(3, s0 + h*arange(-2, m+4), periodic=1)`; `a = 1`; `b'` is the periodic cubic basis on
+the same knots doubled.  For every `0 < tol ≤ h/3` BOTH remaining hypotheses of
+`C05_geometry_periodic_partial` are PROVED (`uniform_quadratic_raise_hsw`, `Lemmas/C05PerUniform.lean`):
+* `H_sw`: the Greville points of `b'` are the thirds `s0 + h·(j ± 1/3)`; every cubic B-spline on uniform
+  double knots takes the value `16/27 > 1/2` at its own Greville point, the folded periodic collocation
+  matrix is row-stochastic (C01), hence strictly diagonally dominant, hence injective
+  (Levy–Desplanques, `stochastic_diag_injective_c14`), and the model's certified inverse exists;
+* admissibility: a third is at least `h/3 ≥ tol` from every knot of the lattice `s0 + h·ℤ`, also after
+  wrapping.
+So `raise_order_implicit(1)`, `SplineObject.raise_order(1)` and `Curve.raise_order(1)` succeed (no
+`LinAlgError`), the public methods return the receiver, and the result is `ElevatedOn` the parameters
+admissible for both bases — no analytic hypothesis left.  (The diagonal argument does not extend to
+the other small cases: raising uniform periodic linears gives diagonal entries `1/2` resp. `12/27`.) -/
+theorem C05_geometry_periodic_uniform_cubic (tol s0 h : K) (htol : 0 < tol) (htolh : tol ≤ h / 3)
+    (m : ℕ) (hm : 2 ≤ m) (o : Obj K) (nc : ℕ)
+    (hb : o.bases = #[perBasis 3 1 (s0 :: uwr s0 h m) (1 :: List.replicate m 1) (h * ((m : K) + 1))])
+    (hs : o.cps.shape
+      = [(perBasis 3 1 (s0 :: uwr s0 h m) (1 :: List.replicate m 1) (h * ((m : K) + 1))).numFunctions, nc]) :
+    let b := perBasis 3 1 (s0 :: uwr s0 h m) (1 :: List.replicate m 1) (h * ((m : K) + 1))
+    let b' := perBasis (3 + 1) 1 (s0 :: uwr s0 h m) ((1 :: List.replicate m 1).map (· + 1)) (h * ((m : K) + 1))
+    let S : K → Prop := fun u => b.Admissible tol u ∧ b'.Admissible tol u
+    (∃ o', o.raiseOrderImplicit tol [1] = .ok o' ∧ ElevatedOn S tol b b' nc o o') ∧
+    (∃ o', o.raiseOrder tol [((1 : ℕ) : Int)] none = .ok (.self, o') ∧ ElevatedOn S tol b b' nc o o') ∧
+    (∃ o', o.curveRaiseOrder tol ((1 : ℕ) : Int) = .ok (.self, o') ∧ ElevatedOn S tol b b' nc o o') := by
+  obtain ⟨hd, pts, Ni, hg, hadm, hNi⟩ := uniform_quadratic_raise_hsw tol s0 h htol htolh m hm
+  exact C05_geometry_periodic_partial hd htol 1 le_rfl o nc hb hs pts hg hadm Ni hNi
 
 /-- **C05, a standard periodic direction is a good direction of a multi-directional `raise_order`
 (partial: relative to `H_sw` for that direction).**  `DirOKw tol b a b' E` packages what the
@@ -1142,6 +1176,21 @@ example : ((c05Tube.reinterpolate (1/100) [perBasis 4 0 ((0 : ℚ) :: [1]) (3 ::
       openBasis 3 (clampedU 0 1 []) (clampedM 3 [])]).toOption.map (fun t => (t.shape, t.data)))
     = some ([5, 3, 2], #[0, 0, 0, 1/2, 0, 1, 4/3, 0, 4/3, 7/6, 4/3, 7/3, 11/6, 1/2, 11/6, 23/12, 11/6, 10/3, 7/6,
       5/2, 7/6, 43/12, 7/6, 14/3, 2/3, 2, 2/3, 17/6, 2/3, 11/3]) := by decide +kernel
+
+/-- Closed quadratic curve on `BSplineBasis(3, [-2,-1,0,1,2,3,4,5], periodic=1)` (`s0 = 0`, `h = 1`,
+    `m = 2`: three control points). -/
+def c05UniCurve : Obj ℚ :=
+  { bases := #[perBasis 3 1 ((0 : ℚ) :: uwr 0 1 2) (1 :: List.replicate 2 1) (1 * (((2 : ℕ) : ℚ) + 1))],
+    cps := ⟨[3, 2], #[0, 0, 2, 0, 1, 3]⟩, rational := false }
+
+/-- `C05_geometry_periodic_uniform_cubic` with all hypotheses instantiated on `c05UniCurve`,
+    `tol = 1/100 ≤ 1/3`; nothing is left to the kernel but the shape of the net. -/
+example : ∃ o', c05UniCurve.raiseOrder (1/100) [((1 : ℕ) : Int)] none = .ok (.self, o')
+    ∧ o'.bases = #[perBasis (3 + 1) 1 ((0 : ℚ) :: uwr 0 1 2) ((1 :: List.replicate 2 1).map (· + 1))
+        (1 * (((2 : ℕ) : ℚ) + 1))] := by
+  obtain ⟨_, ⟨o', h1, h2, _⟩, _⟩ := C05_geometry_periodic_uniform_cubic (K := ℚ) (1/100) 0 1 (by norm_num)
+    (by norm_num) 2 le_rfl c05UniCurve 2 rfl (by decide +kernel)
+  exact ⟨o', h1, h2⟩
 
 attribute [local instance] c05BasisDecEq
 
